@@ -1,12 +1,13 @@
 #!/venv/bin/python
-"""usage: tools/seed_keep.py <ID> <src dir> <eval log> "<caught by>" ["<note>"]
+"""usage: [SEED_SUFFIX=b] tools/seed_keep.py <ID> <src dir> <eval log> "<caught by>" ["<note>"]
 Copies a confirmed seeded change into /verif/seeded/<ID>/ with meta.json."""
 import json, os, re, shutil, sys
 
 HERE = os.path.dirname(os.path.dirname(os.path.abspath(__file__)))
 pid, src, log, caught = sys.argv[1:5]
 note = sys.argv[5] if len(sys.argv) > 5 else ""
-dst = os.path.join(HERE, "seeded", pid)
+suffix = os.environ.get("SEED_SUFFIX", "")
+dst = os.path.join(HERE, "seeded", pid + suffix)
 os.makedirs(dst, exist_ok=True)
 for f in ("patch.diff", "demo.py", "demo.sh", "notes.md"):
     if os.path.exists(os.path.join(src, f)):
